@@ -21,8 +21,16 @@ PhaseOk(h) ==   \* evaluated when heap event h (index k >= 4) arrives: compare p
   LET k == Len(heaps) + 1 IN
   k < 4 \/ (Growth(heaps[k - 1], h) <= SlackBytes /\ GrowthObjs(heaps[k - 1], h) <= SlackObjs)
 FinalOk(h) == Growth(heaps[1], h) <= 2 * SlackBytes /\ GrowthObjs(heaps[1], h) <= 2 * SlackObjs
+\* "unbound": measured while the interceptor is still open, after many streams were bound, used and unbound again - the heap
+\* must be back near the level it had BEFORE they were bound (heap event 2), not at the level of the peak
+\* (h.id = number of streams that were bound and unbound: the HARNESS keeps a few map entries per SSRC it has ever used -
+\* counters, the last packet - which is allowed for at 512 bytes / 3 objects per stream; a stream's state in an
+\* interceptor is a kilobyte or more)
+UnboundOk(h) == /\ Len(heaps) >= 2
+                /\ Growth(heaps[2], h) <= 2 * SlackBytes + 512 * h.id
+                /\ GrowthObjs(heaps[2], h) <= 2 * SlackObjs + 3 * h.id
 Accept(e) ==
-  IF e.a = "heap" THEN IF e.kind = "final" THEN FinalOk(e) ELSE PhaseOk(e)
+  IF e.a = "heap" THEN IF e.kind = "final" THEN FinalOk(e) ELSE IF e.kind = "unbound" THEN UnboundOk(e) ELSE PhaseOk(e)
   ELSE IF e.a \in {"pre", "wire"} THEN TRUE
   ELSE IF e.a = "end" THEN ~e.aborted
   ELSE ~e.blocked /\ e.panic = ""
